@@ -60,6 +60,13 @@ func (c *graphCase) bare(i int) bool {
 }
 
 func replay(sub string, raw json.RawMessage) ([]h.Failure, error) {
+	if sub == "lone" {
+		var c loneCase
+		if err := json.Unmarshal(raw, &c); err != nil {
+			return nil, err
+		}
+		return checkLone(c), nil
+	}
 	if sub == "conflict" {
 		var c conflictCase
 		if err := json.Unmarshal(raw, &c); err != nil {
